@@ -365,6 +365,12 @@ def run_scenario(sc, d, oracle_cls=None, pauses=None, monitor=None, budget=None,
             res.exc = ('WallTimeout', fr[-1].name if fr else '?', os.path.basename(fr[-1].filename) if fr else '?',
                        'no return after %.0f s of wall time at simulated t=%s' % (HANG_LIMIT_S, env.now))
         except Exception as e:      # noqa
+            c = e.__cause__ or e
+            tbl = traceback.extract_tb(c.__traceback__)
+            if tbl and os.path.dirname(os.path.abspath(tbl[-1].filename)) == _HERE:
+                # raised by the harness' own hooks/oracles, not by topsim: never a verdict
+                raise RuntimeError('harness code raised inside the run: %s: %s at %s:%s' % (
+                    type(c).__name__, c, os.path.basename(tbl[-1].filename), tbl[-1].lineno)) from c
             res.status = 'exc'
             site = exc_site(e)
             res.exc = site + (str(e.__cause__ or e)[:120],)
